@@ -203,6 +203,8 @@ const (
 	ErrEndifWithoutMatchingIf Error = "$endif without matching $if"
 	// ErrUnknownModifier is the unknown modifier error.
 	ErrUnknownModifier Error = "unknown modifier"
+	// ErrIncludeTooDeep is the too many nested $include error.
+	ErrIncludeTooDeep Error = "$include nested too deeply"
 )
 
 // Error satisfies the error interface.
